@@ -59,6 +59,12 @@ func (h *CancelSrv) Hold(ctx context.Context, name string) (string, error) {
 	return name, nil
 }
 
+// HoldNote is Hold for notifications.
+func (h *CancelSrv) HoldNote(ctx context.Context, name string) error {
+	_, err := h.Hold(ctx, name)
+	return err
+}
+
 func (h *CancelSrv) Sub(ctx context.Context, name string) (<-chan int, error) {
 	h.rec(name, ctx)
 	out := make(chan int)
@@ -75,7 +81,8 @@ func (h *CancelSrv) Sub(ctx context.Context, name string) (<-chan int, error) {
 }
 
 type CancelCli struct {
-	Hold func(ctx context.Context, name string) (string, error)
+	HoldNote func(ctx context.Context, name string) error `notify:"true"`
+	Hold     func(ctx context.Context, name string) (string, error)
 	Sub  func(ctx context.Context, name string) (<-chan int, error)
 	// SubA reaches Sub through a server-side alias
 	SubA func(ctx context.Context, name string) (<-chan int, error) `rpc_method:"alias.sub"`
@@ -111,6 +118,11 @@ func init() {
 				}
 				return ps
 			}
+			// N: a notification whose handler is still running when the cancels are sent; M: a call
+			// made by a foreign client (raw frames, a meta object without a span context)
+			ps = append(ps, Param{Name: "X-ws1-note", Bound: 1, V: map[string]int{"ws": 1, "note": 1}, S: map[string]string{"set": "X"}})
+			ps = append(ps, Param{Name: "Z-ws1-note", Bound: 1, V: map[string]int{"ws": 1, "note": 1}, S: map[string]string{"set": "Z"}})
+			ps = append(ps, Param{Name: "M-ws1-rawmeta", Bound: 1, V: map[string]int{"ws": 1, "rawmeta": 1}, S: map[string]string{"set": "M"}})
 			if tier == "quick" {
 				add("X", 1, 1)
 				add("Z", 1, 1)
@@ -164,6 +176,9 @@ func cancelBody(s *vsched.Sched, p Param) {
 	if ws {
 		names = []string{"X", "Y", "Z", "V", "W"} // W: a subscription through an alias, never cancelled
 	}
+	if p.I("rawmeta") == 1 {
+		names = append(names, "M")
+	}
 	ctxs := map[string]context.Context{}
 	cancels := map[string]context.CancelFunc{}
 	for _, n := range names {
@@ -199,6 +214,10 @@ func cancelBody(s *vsched.Sched, p Param) {
 	s.EnvEnabled = func(name string) bool {
 		if strings.HasPrefix(name, "release-") {
 			return released
+		}
+		if name == "mcall-sent" {
+			_, ok := obs.Get("ret-M")
+			return ok
 		}
 		return true
 	}
@@ -306,11 +325,21 @@ func cancelBody(s *vsched.Sched, p Param) {
 		s.SetObs(obs.String())
 	}
 	s.Begin()
+	if p.I("note") == 1 {
+		s.Go("call-0N", func() { cli.HoldNote(context.Background(), "N") })
+	}
 	for _, n := range names {
 		n := n
 		c := &cli
 		if n == "V" {
 			c = &cli2
+		}
+		if n == "M" {
+			s.Go("call-M", func() {
+				w.Net.Link(0).Inject(vnet.C2S, vnet.TextFrame([]byte(`{"jsonrpc":"2.0","id":"raw-1","method":"T.Hold","params":["M"],"meta":{"traceparent":"00-0af7651916cd43dd8448eb211c80319c-b7ad6b7169203331-01"}}`), true))
+				obs.Set("ret-M", "M/<nil>") // the answer goes to a peer that is not a library client
+			})
+			continue
 		}
 		s.Go("call-"+n, func() {
 			if n == "Z" || n == "W" {
@@ -342,9 +371,16 @@ func cancelBody(s *vsched.Sched, p Param) {
 		}
 		n := n
 		s.Go("zcancel-"+n, func() {
+			if n == "M" {
+				s.Env("mcall-sent") // a peer cancels a call only after it has sent it
+			}
 			mu.Lock()
 			cancelled[n] = true
 			mu.Unlock()
+			if n == "M" {
+				w.Net.Link(0).Inject(vnet.C2S, vnet.TextFrame([]byte(`{"jsonrpc":"2.0","method":"xrpc.cancel","params":["raw-1"]}`), true))
+				return
+			}
 			cancels[n]()
 		})
 	}
